@@ -1,0 +1,78 @@
+//go:build verif
+
+// Contracts for govc (see /verif/DESIGN.md). Comment-only: no executable code with or without the tag.
+
+package dtls
+
+//@ import net "net"
+//@ import tls "crypto/tls"
+//@ import context "context"
+//@ import dtls "github.com/pion/dtls/v2"
+
+// ---------------- C16: the byte-stream view of the message stream (SCTPConn.Read) ----------------
+// A message stream hands out whole messages; Read fills at most len(p) bytes.
+//@ func (s msgStream) Read(p []byte) (n int, err error)
+//@   ensures 0 <= n && n <= len(p)
+//@   assigns elems(p)
+
+// pending = readBuffer[readOffset:readLength]: the part of the last message that has not been handed out yet.
+// "reads return the concatenation of the peer's messages whatever sizes the reader uses": while something is
+// pending, Read hands out exactly its next min(len(b), pending) bytes, in order, advances the offset by that much and
+// does NOT touch the stream (reading the stream first would reorder or drop the pending bytes); only when nothing is
+// pending is the next message fetched. "a stream error is reported only after the data that came with it": a
+// non-nil error is returned only by the call after which nothing is pending.
+//@ func (s *SCTPConn) Read(b []byte) (int, error)
+//@   requires s != nil && s.stream != nil && !held(&s.readMutex)
+//@   requires 0 <= s.readOffset && s.readOffset <= s.readLength && s.readLength <= len(s.readBuffer) && len(s.readBuffer) == s.maxMessageSize
+//@   atcall msgStream).Read before: assert @C16: s.readOffset == s.readLength
+//@   atcall msgStream).Read#1 before: snap direct := true
+//@   ensures @C16: !held(&s.readMutex)
+//@   ensures @C16: 0 <= s.readOffset && s.readOffset <= s.readLength && s.readLength <= len(s.readBuffer)
+//@   ensures @C16: old(s.readOffset < s.readLength) ==> result0 == ite(len(b) < old(s.readLength - s.readOffset), len(b), old(s.readLength - s.readOffset)) && s.readOffset == old(s.readOffset) + result0 && s.readLength == old(s.readLength)
+//@   ensures @C16: old(s.readOffset < s.readLength) ==> (forall i int :: 0 <= i && i < result0 ==> b[i] == old(s.readBuffer[s.readOffset + i]))
+//@   ensures @C16: result1 != nil && !defined(direct) ==> s.readOffset == s.readLength
+
+// ---------------- C16: the listener's registration tables ----------------
+// "each accepted connection is delivered to the caller waiting for that secret and to no other, and an accept that is
+// cancelled leaves nothing registered": a second registration of an identifier that is already registered is refused
+// and changes nothing; the certificate the server presents is the one registered for the client's hello-random;
+// whoever registered an identifier removes exactly that identifier on every way out, and nobody else's.
+//@ guardedby Listener.connToCertMutex: connToCert
+//@ guardedby Listener.connMapMutex: connMap
+
+//@ func (l *Listener) registerCert(connID [32]byte, clientCert *tls.Certificate, serverCert *tls.Certificate) error
+//@   requires l != nil && l.connToCert != nil && !held(&l.connToCertMutex)
+//@   ensures @C16: !held(&l.connToCertMutex)
+//@   ensures @C16: old(l.connToCert[connID] != nil) ==> result != nil && l.connToCert[connID] == old(l.connToCert[connID])
+//@   ensures @C16: old(l.connToCert[connID] == nil) ==> result == nil && l.connToCert[connID] != nil && l.connToCert[connID].clientCert == clientCert && l.connToCert[connID].serverCert == serverCert
+//@   assigns mapof(l.connToCert), held(&l.connToCertMutex), acq(&l.connToCertMutex)
+
+//@ func (l *Listener) removeCert(connID [32]byte)
+//@   requires l != nil && !held(&l.connToCertMutex)
+//@   ensures @C16: !held(&l.connToCertMutex) && !(connID in l.connToCert)
+//@   assigns mapof(l.connToCert), held(&l.connToCertMutex), acq(&l.connToCertMutex)
+
+//@ func (l *Listener) registerChannel(connID [32]byte) (<-chan net.Conn, error)
+//@   requires l != nil && l.connMap != nil && !held(&l.connMapMutex)
+//@   ensures @C16: !held(&l.connMapMutex)
+//@   ensures @C16: old(l.connMap[connID] != nil) ==> result1 != nil && l.connMap[connID] == old(l.connMap[connID])
+//@   ensures @C16: old(l.connMap[connID] == nil) ==> result1 == nil && result0 != nil && l.connMap[connID] == result0
+//@   assigns mapof(l.connMap), held(&l.connMapMutex), acq(&l.connMapMutex)
+
+//@ func (l *Listener) removeChannel(connID [32]byte)
+//@   requires l != nil && !held(&l.connMapMutex)
+//@   ensures @C16: !held(&l.connMapMutex) && !(connID in l.connMap)
+//@   assigns mapof(l.connMap), held(&l.connMapMutex), acq(&l.connMapMutex)
+
+//@ func (l *Listener) getCert(id [32]byte) (*certPair, error)
+//@   requires l != nil && !held(&l.connToCertMutex)
+//@   ensures @C16: !held(&l.connToCertMutex)
+//@   ensures @C16: result1 == nil ==> id in l.connToCert && result0 == l.connToCert[id]
+//@   ensures @C16: result1 != nil ==> !(id in l.connToCert)
+//@   assigns held(&l.connToCertMutex), acq(&l.connToCertMutex)
+
+//@ func (l *Listener) chFromID(id [32]byte) (chan<- net.Conn, error)
+//@   requires l != nil && !held(&l.connMapMutex)
+//@   ensures @C16: !held(&l.connMapMutex)
+//@   ensures @C16: result1 == nil ==> id in l.connMap && result0 == l.connMap[id]
+//@   assigns held(&l.connMapMutex), acq(&l.connMapMutex)
